@@ -373,7 +373,9 @@ def c18(prop, pool, verdict, tier, seed):
 
 def replay_names(r):
     from rtc import prop_c18
-    if r.get('what') == 'history':
+    if r.get('what') == 'front-end':
+        res = prop_c18.front_end_cases()
+    elif r.get('what') == 'history':
         res = prop_c18.history_ok([tuple(x) for x in r['history']])
     else:
         res, _, _ = prop_c18.pipeline_case({k: tuple(v) for k, v in r['graph'].items()}, r.get('rename'))
@@ -577,6 +579,8 @@ def src_property(explanation, extra_assumptions=()):
         e1 = run_e1(prop, pool, verdict, tier, seed)
         fz = run_fuzz(prop, pool, verdict, tier, seed)
         d = src_pass(pool, tier, seed)
+        for ce in d.get('checker_exceptions', [])[:1]:
+            verdict.errors.append('the source pass raised on a program: %s' % (ce,))
         mine = [f for f in d['fails'] if f['prop'] == prop]
         by = {}
         for f in mine:
